@@ -30,10 +30,11 @@ ASSUMPTIONS = ["faults inside cease/exit callbacks are not generated", "ancestor
 NSHARDS = {"quick": 8, "thorough": 16}
 REQUIRE = {"scheduler_stops_judged": 3000, "stops_mid_cycle": 300, "stops_nested": 500, "stops_with_3plus_alive": 500,
            "path:limit": 200, "path:recur-raise": 200, "path:enter-raise": 200, "path:extend-enter-raise": 100,
-           "path:remove": 200, "path:kbint-sched": 200, "path:extend-then-stop": 200}
+           "path:remove": 200, "path:kbint-sched": 200, "path:extend-then-stop": 200, "path:hook-acts": 150,
+           "path:extend-idle-always": 150}
 
 PATHS = ["limit", "recur-raise", "enter-raise", "extend-enter-raise", "remove", "kbint-sched", "extend-then-stop",
-         "recur-raise", "limit"]
+         "recur-raise", "limit", "hook-acts", "extend-idle-always"]
 
 
 def make_extend_then_stop(rng):
@@ -108,6 +109,12 @@ def judge(run, ctx, case):
             fp = i
         elif kind == "ext-call":
             extended.update(info["ids"])
+    rem_windows = []
+    for i, (kind, did, t, info) in enumerate(trace):
+        if kind == "rem-call":
+            j = next((k for k in range(i + 1, len(trace)) if trace[k][0] in ("rem-ret", "rem-raise") and trace[k][1] == did),
+                     len(trace))
+            rem_windows.append((i, j))
     windows = []
     for i, (kind, did, t, info) in enumerate(trace):
         if kind in ("exit-begin", "sched-exit-begin"):
@@ -149,8 +156,14 @@ def judge(run, ctx, case):
             ctx.violation(key, f"scheduler {S} stopped with alive members {members}; {missing} had not exited when its exit "
                           f"completed (exit indexes {[ext.get(d) for d in missing]}, window {b}-{e}, run end {end})", trace=tr)
             continue
-        order = sorted(members, key=ext.get)
-        expected = list(reversed(members))
+        # a doer that user code removed with remove() from inside another doer's cease/exit hook during this stop is
+        # closed by that call, at the caller's request, not by the scheduler's own sweep: it must still exit inside
+        # the window (checked above) but has no place in the reverse-enter order
+        by_removal = {d for d in members if any(lo < ext[d] < hi for (lo, hi) in rem_windows if b0 < lo and hi < e)}
+        if by_removal:
+            ctx.count("members_removed_by_a_hook_during_stop", len(by_removal))
+        order = sorted((d for d in members if d not in by_removal), key=ext.get)
+        expected = [d for d in reversed(members) if d not in by_removal]
         if order != expected:
             good = False
             static = [d for d in order if d not in extended]
